@@ -296,6 +296,63 @@ def p4(rep, f):
     rep.floor("sposNew calls in include.c", n, 3)
 
 
+def p6(rep):
+    """inclFile switches the include state (file, directory, line 0) to the file it is about to read.  A message about the
+    *directive* (file not found, circular include) is positioned by inclError from the current state, so the saved state of the
+    including file must be back in place before it: otherwise the error names line 0 of the included file."""
+    f = common.extract("include.c", trees=["inclFile"], cfg=["inclFile"])
+    fn = f.func("inclFile")
+    cfg = common.CFG(fn)
+    where = "include.c:%d (inclFile)" % fn["l"]
+
+    def whole(n, lhs_global):
+        if n["k"] != "BinaryOperator" or n["op"] != "=":
+            return None
+        a, b = strip(n["c"][0]), strip(n["c"][1])
+        if a is None or b is None or a["k"] != "DeclRefExpr" or b["k"] != "DeclRefExpr":
+            return None
+        g, l = (a, b) if lhs_global else (b, a)
+        if g["n"] == "fileState" and g.get("g") and not l.get("g"):
+            return l["n"]
+        return None
+    saves = cfg.events(lambda n: whole(n, False) is not None)
+    if len(saves) != 1:
+        raise AnalysisBroken("inclFile: expected one `saved = fileState`, found %d" % len(saves))
+    sb, sj, sn = saves[0]
+    saved = whole(sn, False)
+
+    def is_restore(n):
+        return whole(n, True) == saved
+
+    def is_switch(n):
+        return n["k"] == "BinaryOperator" and n["op"] == "=" and (member_path(n["c"][0]) or "").startswith("fileState.")
+    switches = cfg.events(is_switch)
+    if not switches:
+        raise AnalysisBroken("inclFile: no store to a field of fileState")
+    errs = cfg.events(lambda n: n["k"] == "CallExpr" and n.get("callee") == "inclError")
+    rep.floor("inclError calls in inclFile", len(errs), 2)
+    esc = None
+    for b, j, _ in switches:
+        esc = esc or cfg.path_avoiding(b, lambda n: n["k"] == "CallExpr" and n.get("callee") == "inclError", is_restore, src_idx=j)
+    if esc is None:
+        rep.ok("P6", "directive-error-at-includer")
+    else:
+        rep.violation("P6", "directive-error-at-includer", where,
+                      "after inclFile has switched fileState to the file being included, a path reaches inclError without "
+                      "`fileState = %s`: the message about the #include directive is positioned in the included file (line 0), not at "
+                      "the directive" % saved, detail={"cfg_path": esc[:12]})
+    # and the state is restored on the way out
+    esc = None
+    for b, j, _ in switches:
+        esc = esc or cfg.path_avoiding(b, None, is_restore, src_idx=j)
+    if esc is None:
+        rep.ok("P6", "state-restored-at-exit")
+    else:
+        rep.violation("P6", "state-restored-at-exit", where,
+                      "inclFile can return with fileState still describing the included file: every later position in the including "
+                      "file is attributed to the wrong file and line", detail={"cfg_path": esc[:12]})
+
+
 LINE_KEYS_INJECTIVE = {"sposGlobalLine"}           # serial number of the physical line over all included files
 LINE_KEYS_PARTIAL = {"sposLine", "sposChar"}       # line within one file / column: equal for different physical lines
 
@@ -356,5 +413,6 @@ def run(tier, only=None):
     fi = common.extract("include.c", all_trees=True)
     p4(rep, fi)
     p5(rep)
+    p6(rep)
     rep.analysed_count("translation units", 3)
     return rep
